@@ -50,7 +50,7 @@ theorem schema_accepts_iff (doc : Doc) (h : NoKnownSchemaTrigger doc = true) :
   obtain ⟨q, qd, hblocks, hq, hqi, hqb, hres⟩ := schemaNew_spec h
   constructor
   · rintro ⟨s, hs⟩
-    rcases hres with ⟨_, _, hd, hr⟩ | ⟨es, hes, _⟩
+    rcases hres with ⟨_, _, _, _, hd, hr⟩ | ⟨es, hes, _⟩
     · exact validSchema_of_rules hblocks hq hqi hqb hd hr
     · rw [hs] at hes; cases hes
   · intro hv
